@@ -25,6 +25,27 @@ def _split(nd, after):
     nd.body = ([store] + call) if after else (call + [store])
     return [nd, h]
 
+
+def _is_stan(nd):
+    return isinstance(nd, ast.FunctionDef) and nd.name == "stan_epochs"
+
+
+def _decorate(src, imp=None):
+    def repl(nd):
+        nd.decorator_list = [expr(src)] + list(nd.decorator_list)
+        return (stmt(imp) if imp else []) + [nd]
+    return repl
+
+
+def _hand_memo(nd):
+    key = "(" + ", ".join(a.arg for a in nd.args.args) + ",)"
+    doc = [s for s in nd.body[:1] if isinstance(s, ast.Expr) and isinstance(s.value, ast.Constant)]
+    rest = nd.body[len(doc):]
+    assert ast.unparse(rest[-1]) == "return epochs"
+    nd.body = (doc + stmt(f"_key = {key}\nif _key in _SCHEDULES:\n    return _SCHEDULES[_key]")
+               + rest[:-1] + stmt("_SCHEDULES[_key] = epochs\nreturn epochs"))
+    return stmt("_SCHEDULES = {}") + [nd]
+
 VARIANTS = [
     V("c16_no_first_guard", "M", E, A, *_drop_if("not self._configs and"),
       note="schedules not starting with INITIAL_VALUES accepted (or crash)", expect_rule="C16.R1"),
@@ -114,4 +135,15 @@ VARIANTS = [
       note="nested ifs merged"),
     V("c16_t_ge_loop", "T", W, "stan_epochs",
       *replace_expr("3 * this_time <= time_left", "time_left >= 3 * this_time"), note="flipped guard"),
+    V("c16_lru_cache", "M", W, "", _is_stan,
+      _decorate("lru_cache(maxsize=128)", "from functools import lru_cache"),
+      note="memoised schedule: the second call returns the first call's (edited) list",
+      expect_rule="C16.R3"),
+    V("c16_functools_cache", "M", W, "", _is_stan, _decorate("functools.cache", "import functools"),
+      note="memoised schedule", expect_rule="C16.R3"),
+    V("c16_hand_memo", "M", W, "", _is_stan, _hand_memo,
+      note="hand-written memo table keyed by the arguments", expect_rule="C16.R3"),
+    V("c16_t_no_type_check", "T", W, "", _is_stan,
+      _decorate("no_type_check", "from typing import no_type_check"),
+      note="a transparent decorator"),
 ]
